@@ -1,4 +1,5 @@
 """Implementation-side functions for C11 (run in worker processes; weasyprint imported from REPO)."""
+import sys
 from fractions import Fraction
 from types import SimpleNamespace
 
@@ -239,8 +240,19 @@ def render_floats(case):
         els = [id(s.element) for s in context.excluded_shapes if getattr(s, 'element', None) is not None]
         stale = len(set(els)) < len(els) or id(box.element) in els
         new = orig(context, box, containing_block)
+        # who asked: inline.py lays a float met in a line out at once (_out_of_flow_layout) or after the line
+        # (the waiting_floats loop of get_next_linebox); block.py for block-level floats
+        via, fr = 'block', sys._getframe(1)
+        for _ in range(8):
+            if fr is None:
+                break
+            name = fr.f_code.co_name
+            if fr.f_code.co_filename.endswith('inline.py') and name in ('_out_of_flow_layout', 'get_next_linebox'):
+                via = 'at-once' if name == '_out_of_flow_layout' else 'waiting'
+                break
+            fr = fr.f_back
         # position decided by float.py and the rank of this call (the order in which floats are placed)
-        placed[id(new)] = (new.position_x, new.position_y, len(placed), stale)
+        placed[id(new)] = (new.position_x, new.position_y, len(placed), stale, via)
         return new
     fl.find_float_position = logging_find_float_position
     try:
@@ -342,6 +354,7 @@ def render_floats(case):
                     rec['placed'] = pl[:2] if pl else None
                     rec['seq'] = pl[2] if pl else None
                     rec['stale'] = bool(pl[3]) if pl else False
+                    rec['via'] = pl[4] if pl else None
                 rec['src'] = src.get(id(b.element)) if b.element is not None else None
                 rec['dir'] = cb.style['direction']
                 recs.append(rec)
